@@ -299,8 +299,8 @@ func fragsBody(maxFrags int) nd.Body {
 	}
 }
 
-var longLens = []int{4095, 4096, 4097, 65535, 65536, 65537, 131073}
-var longPats = []string{"a", "*a ", "> ", "`", "a\xff", ">"}
+var longLens = []int{4095, 4096, 4097, 32767, 32768, 32769, 40000, 65535, 65536, 65537, 131073}
+var longPats = []string{"a", "*a ", "> ", "`", "a\xff", ">", "PRE:a", "PRE:a`"} // PRE: the long line stands inside a preformatted block
 
 type sizeReader struct {
 	s    string
@@ -324,18 +324,26 @@ func longBody(c *nd.Ctx) nd.Result {
 	l := longLens[c.Choose(len(longLens), "len")]
 	pat := longPats[c.Choose(len(longPats), "pattern")]
 	nl := c.Choose(3, "newline") // 0 none, 1 at end, 2 in the middle
-	size := []int{1 << 30, 1000, 4096}[c.Choose(3, "readsize")]
+	size := []int{1 << 30, 1000, 4096, 7, 1}[c.Choose(5, "readsize")]
 	if strings.HasPrefix(pat, ">") && l > 4097 {
 		// one nested decoder per quote level: quadratic time, tens of thousands
 		// of levels take minutes; termination for deeper nesting is not explored
 		return nd.Result{Skip: true}
 	}
-	s := strings.Repeat(pat, l/len(pat)+1)[:l]
+	pre := strings.HasPrefix(pat, "PRE:")
+	unit := strings.TrimPrefix(pat, "PRE:")
+	s := strings.Repeat(unit, l/len(unit)+1)[:l]
 	switch nl {
 	case 1:
 		s += "\n"
 	case 2:
 		s = s[:l/2] + "\n" + s[l/2:]
+	}
+	if pre {
+		s = "```\n" + s + "```\nafter\n"
+	}
+	if (size == 1 && l > 40000) || (size == 7 && l > 70000) {
+		return nd.Result{Skip: true} // tiny reads of the longest inputs only cost time
 	}
 	c.Note("%d bytes of %q newline=%d read size %d", len(s), pat, nl, size)
 	res := nd.Result{Outcome: "long", NonTrivial: fmt.Sprintf("%d/%s/%d/%d", l, pat, nl, size)}
@@ -347,6 +355,14 @@ func longBody(c *nd.Ctx) nd.Result {
 	var cat bytes.Buffer
 	for _, t := range toks {
 		cat.WriteString(t.data)
+	}
+	// the same tokens however the input is read
+	if size != 1<<30 {
+		ref, rerr, rv := decode(&sizeReader{s: s, size: 1 << 30}, 6*len(s)+16)
+		if rv == nil && (fmt.Sprint(rerr) != fmt.Sprint(err) || !sameToks(ref, toks)) {
+			res.Violation = &nd.Violation{Sig: "chunking:long-input-token-sequence-differs", Msg: fmt.Sprintf("%d bytes of %q newline=%d: one read gives %d tokens (%v), reads of %d bytes give %d tokens (%v)", len(s), pat, nl, len(ref), rerr, size, len(toks), err)}
+			return res
+		}
 	}
 	switch {
 	case err == io.EOF:
